@@ -235,3 +235,52 @@ func Harness_b64_roundtrip() {
 	V.Assert(bytes.Equal(x, y), "base64 round trip changed the bytes")
 	V.Reach("done")
 }
+
+// editOne applies one arbitrary single-byte edit to base: substitution by a
+// different byte, insertion of an arbitrary byte, or deletion, at a symbolic
+// position (positions run in steps of `stride` from `phase`).
+func editOne(base []byte) []byte {
+	stride, phase := V.Param("stride", 1), V.Param("phase", 0)
+	kind := V.Int("edit", 0, 2)
+	hi := len(base) - 1
+	if kind == 1 {
+		hi = len(base)
+	}
+	pos := V.Int("posk", 0, hi/stride)*stride + phase
+	V.Assume(pos <= hi)
+	c := V.Byte("c")
+	out := make([]byte, 0, len(base)+1)
+	out = append(out, base[:pos]...)
+	switch kind {
+	case 0:
+		V.Assume(c != base[pos])
+		out = append(out, c)
+		out = append(out, base[pos+1:]...)
+	case 1:
+		out = append(out, c)
+		out = append(out, base[pos:]...)
+	case 2:
+		out = append(out, base[pos+1:]...)
+	}
+	return out
+}
+
+// Harness_C07_edit_valid: a valid header (two stanzas, one with a body of a
+// full 64-column line plus a short line, one with an empty body) followed by
+// payload bytes, with one arbitrary single-byte substitution, insertion or
+// deletion anywhere: whatever is still accepted re-serialises to itself.
+func Harness_C07_edit_valid() {
+	body := make([]byte, 50)
+	for i := range body {
+		body[i] = byte(37 * i)
+	}
+	h := &Header{Recipients: []*Stanza{
+		{Type: "X25519", Args: []string{"TEiF0ypqr+bpvcqXNyCVJpL7OuwPdVwPL7KQEbFDOCc"}, Body: body},
+		{Type: "grease", Args: nil, Body: nil},
+	}, MAC: body[:32]}
+	var buf bytes.Buffer
+	V.Assert(h.Marshal(&buf) == nil, "Marshal failed")
+	buf.WriteString("PAYLOAD\n--- x\n")
+	base := buf.Bytes()
+	checkParse(editOne(base))
+}
